@@ -261,9 +261,10 @@ func (t *Tracker) ContainerPointer() []byte { return t.pointerTo(t.Depth()) }
 
 // NextChildPointer returns the pointer to the direct child of the innermost open container
 // in which a token at the current position lies: the member whose name has been read and
-// whose value is due (object), or the next element (array). ok is false when there is no
-// such child (top level; object where a name, ',' or '}' is due).
-func (t *Tracker) NextChildPointer() (p []byte, ok bool) {
+// whose value is due (object), or the next element when an element may start here (array:
+// nothing read yet, or afterComma). ok is false when there is no such child (top level; object
+// where a name, ',' or '}' is due; array where ',' or ']' is due).
+func (t *Tracker) NextChildPointer(afterComma bool) (p []byte, ok bool) {
 	d := t.Depth()
 	if d == 0 {
 		return nil, false
@@ -274,6 +275,9 @@ func (t *Tracker) NextChildPointer() (p []byte, ok bool) {
 			return nil, false
 		}
 		return t.appendMember(t.pointerTo(d), d, 0), true
+	}
+	if l.Len > 0 && !afterComma {
+		return nil, false
 	}
 	return t.appendMember(t.pointerTo(d), d, 1), true
 }
